@@ -24,11 +24,36 @@ type WebSeed struct {
 	IgnoreRange    bool
 	Status         int    // non-zero: answer every request with this status
 	OnStart, OnEnd func() // optional: called when a request arrives / when its handler returns
+	// honest but slow: the StallNth-th response (1-based, 0 = none) pauses for StallBodyMs after StallAtByte body bytes
+	StallNth, StallAtByte, StallBodyMs int
+
+	active     map[int]*WSProgress
+	lastChange time.Time
 
 	mu          sync.Mutex
 	Requests    []WSReq
 	inFlight    int
 	MaxInFlight int
+}
+
+// WSProgress describes a response in flight: Written is an upper bound of the body bytes the client can have read.
+type WSProgress struct {
+	Path    string
+	Start   int64 // offset in the file of the first body byte
+	Written int64
+	Stalled bool
+}
+
+// InFlight returns the responses in flight and the time of the last change (request arrival, bytes handed to the
+// connection, end of a response).
+func (w *WebSeed) InFlight() ([]WSProgress, time.Time) {
+	w.mu.Lock()
+	defer w.mu.Unlock()
+	var out []WSProgress
+	for _, p := range w.active {
+		out = append(out, *p)
+	}
+	return out, w.lastChange
 }
 
 type WSReq struct {
@@ -75,8 +100,15 @@ func (w *WebSeed) handle(rw http.ResponseWriter, r *http.Request) {
 	if w.inFlight > w.MaxInFlight {
 		w.MaxInFlight = w.inFlight
 	}
+	w.lastChange = time.Now()
 	w.mu.Unlock()
-	defer func() { w.mu.Lock(); w.inFlight--; w.mu.Unlock() }()
+	defer func() {
+		w.mu.Lock()
+		w.inFlight--
+		delete(w.active, nth)
+		w.lastChange = time.Now()
+		w.mu.Unlock()
+	}()
 	if w.OnStart != nil {
 		w.OnStart()
 	}
@@ -111,6 +143,39 @@ func (w *WebSeed) handle(rw http.ResponseWriter, r *http.Request) {
 	}
 	rw.Header().Set("Content-Length", strconv.Itoa(len(body)))
 	rw.WriteHeader(status)
+	prog := &WSProgress{Path: p, Start: start, Written: int64(len(body))}
+	// at least one body byte is held back: a response whose body is complete is over for the client, which would
+	// send its next request on the same connection while this handler still sleeps
+	stall := w.StallNth == nth && w.StallBodyMs > 0 && len(body) > 0
+	if stall {
+		prog.Written = int64(min(w.StallAtByte, len(body)-1))
+	}
+	w.mu.Lock()
+	if w.active == nil {
+		w.active = map[int]*WSProgress{}
+	}
+	w.active[nth] = prog
+	w.lastChange = time.Now()
+	w.mu.Unlock()
+	if stall {
+		k := int(prog.Written)
+		rw.Write(body[:k])
+		if f, ok := rw.(http.Flusher); ok {
+			f.Flush()
+		}
+		w.mu.Lock()
+		prog.Stalled = true
+		w.lastChange = time.Now()
+		w.mu.Unlock()
+		time.Sleep(time.Duration(w.StallBodyMs) * time.Millisecond)
+		w.mu.Lock()
+		prog.Stalled = false
+		prog.Written = int64(len(body))
+		w.lastChange = time.Now()
+		w.mu.Unlock()
+		rw.Write(body[k:])
+		return
+	}
 	if w.TruncateAt > 0 && len(body) > w.TruncateAt {
 		rw.Write(body[:w.TruncateAt]) // fewer bytes than the declared Content-Length: the server closes the connection
 		return
